@@ -9,7 +9,9 @@ CLAIMED = {
         text="TLC explores FJMachine.tla exhaustively at w=8 (every image over boundary-carrying word alphabets x inputs, "
              "six sub-steps per op, all invariants/action properties) and every terminal state is replayed into all engine "
              "configurations for equality; generated w=8/16/32/64 images are run on all engines and every observation is "
-             "judged by TLC against the same specification (Trace_FJMachine).",
+             "judged by TLC against the same specification (Trace_FJMachine), incl. directed layouts (top of the address space, "
+             "self-referential ops that jump to themselves and flip a bit of / next to themselves at every alignment) and the profile "
+             "counters (flips, jumps) of the featured loop.",
         note="Trusted: FJMachine.tla as transcription of the machine definition; TLC; the harness device/recorder. "
              "Bounded: exhaustive part is w=8 with <=6 data words; other widths by seeded generation. Non-halting runs are cut.",
         ref="DESIGN.md section 2 (C01)",
@@ -21,9 +23,11 @@ CLAIMED["C07"] = dict(
          "model-checked exhaustively at page size 4 to REFINE the abstract FlipJump memory for every geometry x window x sentinel "
          "mode x access pair; TLC-simulated scenarios of the same model are scaled to the real constants (2^14-word pages, far pages at "
          "2^40..2^57 words, magic fill value) and run on every engine / window / forced-paged / ring-length / measurement configuration; "
-         "every observation incl. last-ops list and final memory is judged by TLC against FJMachine, which has no notion of layout.",
+         "every observation incl. last-ops list and final memory is judged by TLC against FJMachine, which has no notion of layout. "
+         "Files the Reader loads but no Writer produces (one table entry of a legal file patched to an odd start / odd length, ops entered on the "
+         "last words of that segment, flips into pages sharing a cache slot) are run on every configuration and judged on the patched geometry.",
     note="Trusted: FJCoreMem.tla as a transcription of the C routing; the scaling map; TLC. Bounded: model page size 4, <=3 segments; "
-         "real runs are the scaled scenarios and seeded generated images, not all images.",
+         "real runs are the scaled scenarios and seeded generated images, not all images. FX-9 (paged loop used another page's valid range) was found and repaired here.",
     ref="DESIGN.md section 2 (C07)",
     technique="TLA+ refinement check with TLC (FJCoreMem => abstract memory) + scaled replay of TLC-generated scenarios judged by TLC trace validation against FJMachine")
 
@@ -58,7 +62,9 @@ CLAIMED["C19"] = dict(
          "to the machine's IO sub-steps; scripted devices are run on every engine and storage mode and TLC judges the value of every device "
          "read, the outcome and the final memory (Trace_FJMachineDev). FJScreen.tla models the screen's command decoder one byte per action; "
          "TLC explores all sequences of <=3 commands over an alphabet of valid and malformed commands (every prefix = truncation) and the real "
-         "InMemoryScreen is compared with the specification's state after every byte at w=16/32/64, attached and unattached.",
+         "InMemoryScreen is compared with the specification's state after every byte at w=16/32/64, attached and unattached. End to end: programs "
+         "whose ops hold the packed bytes and whose code prints a command stream run with the real screen as IO device on 8 engine configurations; "
+         "the screen must equal FJScreen's state for that stream and the run itself is judged by Trace_FJMachine.",
     note="Trusted: FJMachineDev.tla / FJScreen.tla as transcriptions of the documented layouts; TLC; the harness devices. Bounded: device "
          "scripts of <=6 callbacks x <=3 accesses on seeded images; screen streams of <=3 commands; device addresses inside the width's address space.",
     ref="DESIGN.md section 2 (C19)",
@@ -133,7 +139,9 @@ CLAIMED["C02"] = dict(
          "deliberately impossible layouts) are assembled by the real assembler and TLC judges the loaded image, the label table and accept/reject "
          "(Trace_FJAsm).",
     note="Trusted: FJAsm.tla. Operand expressions are number / label+offset / $+offset (general expressions are C12's). Generated programs leave room "
-         "for the wflip areas; programs are seeded samples, not all programs (an exhaustive small-scope enumeration by TLC is planned).",
+         "for the wflip areas. MC_FJAsm enumerates EVERY program of <=3 statements over a 14-statement alphabet at w=8 (thorough: also w=16 and <=4 "
+         "statements over 9): TLC checks on the model that the constraints are satisfiable (reference image accepted) and not vacuous (mutant rejected), "
+         "and every enumerated program is assembled and judged; beyond that scope programs are seeded samples. Every assembly is bounded (60 s).",
     ref="DESIGN.md section 2 (C02)",
     technique="TLA+ spec of layout + image constraints; TLC trace validation (code->spec) of assembled images and label tables")
 
@@ -153,7 +161,8 @@ CLAIMED["C16"] = dict(
          "(b) on macro programs inlined by TLC (FJMacro), every local label of every expansion has its own table entry ending in ---<label> at the "
          "address the inlined program gives it, global labels keep name and address; (c) FJLabels.tla: names are unique keys, the saved table survives "
          "save/load, and breakpoints by address / exact label / substring resolve to exactly the addresses of the matching labels - TLC computes "
-         "Resolve on real tables (several labels on one address) and judges what get_breakpoint_handler returned.",
+         "Resolve on real tables (several labels on one address) and judges what get_breakpoint_handler returned; substrings are literal text "
+         "(pieces from anywhere in real names incl. their punctuation . ( ) : -, whole names, the punctuation itself).",
     note="The exact spelling of expansion-path components (<file>:l<line>:<macro>) is not judged here; stale components across assemblies in one process are C13's (file bytes).",
     ref="DESIGN.md section 2 (C02/C03/C16)",
     technique="TLC trace validation of label tables (addresses, per-expansion names) and of breakpoint resolution against a TLA+ definition")
